@@ -97,6 +97,48 @@ func checkVec(raw json.RawMessage) error {
 	return nil
 }
 
+// RefDecodeCase: a symbol built entirely by the reference construction (digit pairs as data
+// codewords, reference parity, interleaving, placement, finder / clock borders) is given to the
+// library's decoder: its version table, module read-out and block de-interleaving must agree with
+// the standard for every size.
+type RefDecodeCase struct {
+	Size int    `json:"size"`
+	Seed uint64 `json:"seed"`
+}
+
+func checkRefDecode(raw json.RawMessage) error {
+	var c RefDecodeCase
+	if err := json.Unmarshal(raw, &c); err != nil {
+		return fmt.Errorf("hx: %v", err)
+	}
+	a := dmref.Sizes[c.Size]
+	rng := hx.NewRng(c.Seed)
+	data := make([]byte, a.Data)
+	var sb strings.Builder
+	for i := range data {
+		v := rng.Intn(100)
+		data[i] = byte(130 + v)
+		fmt.Fprintf(&sb, "%02d", v)
+	}
+	cells := dmref.BuildSymbol(dmref.ECC(data, a), a)
+	bm, _ := gozxing.NewBitMatrix(a.Cols, a.Rows)
+	for y := range cells {
+		for x := range cells[y] {
+			if cells[y][x] {
+				bm.Set(x, y)
+			}
+		}
+	}
+	res, err := dmdec.NewDecoder().Decode(bm)
+	if err != nil {
+		return fmt.Errorf("%s: the decoder rejects the reference symbol for %d digit pairs: %v", dmx.SizeName(a), a.Data, err)
+	}
+	if res.GetText() != sb.String() {
+		return fmt.Errorf("%s: the decoder reads different text from the reference symbol", dmx.SizeName(a))
+	}
+	return nil
+}
+
 // TextCase: full writer output for a text forced into a symbol size.
 type TextCase struct {
 	Size int    `json:"size"`
@@ -381,6 +423,7 @@ func sizeClass(i int) string {
 func TestCheck(t *testing.T) {
 	hx.Main(t, "C08", func(c *hx.Ctx) {
 		c.Register("vec", checkVec)
+		c.Register("refdecode", checkRefDecode)
 		c.Register("text", checkText)
 		c.Register("b256", checkB256)
 		c.Register("table", checkTable)
@@ -435,6 +478,21 @@ func TestCheck(t *testing.T) {
 			}
 		}
 		c.SetExhaustive("vectors_all_sizes", false)
+		{
+			idx := 0
+			for si := range dmref.Sizes {
+				for rep := 0; rep < c.N(2, 20); rep++ {
+					idx++
+					if !c.Mine(idx) {
+						continue
+					}
+					cs := RefDecodeCase{Size: si, Seed: c.Seed("refdecode", idx)}
+					c.Note("reference_symbols_decoded_all_sizes", sizeClass(si), true, hx.HashS("refdec", fmt.Sprint(si, cs.Seed)), func() any { return cs })
+					c.Enum("reference_symbols_decoded_all_sizes", "refdecode", cs, nil)
+				}
+			}
+			c.SetExhaustive("reference_symbols_decoded_all_sizes", false)
+		}
 
 		// full writer output for texts forced into every size
 		c.Rapid("writer_texts", c.N(600, 30000), func(t *rapid.T) {
